@@ -63,7 +63,7 @@ def finding_for(pid, oblig_name, clause=None, case=None):
     for f in known_findings():
         if f.get("status", "open") != "open":
             continue
-        if f["property"] != pid:
+        if pid not in f.get("properties", [f.get("property")]):
             continue
         pats = f.get("obligations", [])
         if any(oblig_name and (oblig_name == p or (p.endswith("*") and oblig_name.startswith(p[:-1]))) for p in pats):
@@ -327,7 +327,9 @@ def check_property(pid, tier, seed):
         lines.append(f"KNOWN-FINDING: property={pid} {kf['id']} {kf['what']}")
     if violations:
         exit_code = 1
-        lines += violations
+        lines += violations[:12]
+        if len(violations) > 12:
+            lines.append(f"... and {len(violations) - 12} more violations (all replay files are under out/{pid}/replay)")
     elif checker_errors:
         exit_code = 3
         lines += ["CHECKER-ERROR " + e for e in checker_errors]
